@@ -1105,7 +1105,11 @@ ALT_DICTS = [{}, {b'a': 1}, {i: b'' for i in range(20)}, {i: 0 for i in range(48
 ALTS = ALT_INTS + ALT_BYTES + ALT_LISTS + ALT_DICTS
 ALT_METHODS = [b'', b'Ping', b'PING', b'ping ', b'ping\x00', b'pin', b'pingg', b'find_node', b'findnode', b'find_value', b'store\n',
                b'stor', b'__init__', b'refresh_token', b'make_token', b'node_rpc', b'%s%s%n', b'\xff\xfe', 'é'.encode(),
-               'méthode-中文'.encode(), b'x' * 200, b'x' * 1000, b'x' * 1300, b'x' * 1500, b'x' * 5000, b'x' * 60000]
+               'méthode-中文'.encode(), b'x' * 200, b'x' * 1000, b'x' * 1300, b'x' * 1500, b'x' * 5000, b'x' * 60000,
+               # long valid multi-byte names: an error reply that quotes them must stay sendable AND decodable whichever way
+               # it is shortened (by bytes: may split a character; by characters: may stay over the size limit) - seeded break C17-A
+               ('a' + 'é' * 300).encode(), ('é' * 700).encode(), ('中' * 400).encode(), ('ab' + '中' * 200).encode(),
+               ('😀' * 340).encode(), ('x' + '😀' * 130).encode(), ('😀' * 1000).encode(), ('é' * 255 + 'x' * 3).encode()]
 
 
 def _paths(prim):
@@ -1737,6 +1741,9 @@ def execute(rec, case):
                     'fixed:store-rpc-id-is-a-list', None
                 yield enc({0: 0, 1: R, 2: nid, 3: 'é'.encode(), 4: [{PV: 1}]}), 'fixed:unknown-method-non-ascii', None
                 yield enc({0: 0, 1: R, 2: nid, 3: b'x' * 1400, 4: [{PV: 1}]}), 'fixed:unknown-method-1400-bytes', None
+                for label, meth in (('300-two-byte-chars', ('a' + 'é' * 300).encode()), ('340-four-byte-chars', ('😀' * 340).encode()),
+                                    ('400-three-byte-chars', ('中' * 400).encode()), ('130-four-byte-chars-odd-offset', ('x' + '😀' * 130).encode())):
+                    yield enc({0: 0, 1: R, 2: nid, 3: meth, 4: [{PV: 1}]}), 'fixed:unknown-method-' + label, None
                 yield enc({0: 0, 1: R, 2: [0] * 48, 3: b'ping', 4: [{PV: 1}]}), 'fixed:node-id-list-of-ints', None
                 yield enc({0: 0, 1: R, 2: [b'a'] * 48, 3: b'ping', 4: [{PV: 1}]}), 'fixed:node-id-list-of-strings', None
                 yield enc({0: 1, 1: [0] * 20, 2: nid, 3: b'pong'}), 'fixed:response-rpc-id-is-a-list', None
